@@ -6,6 +6,10 @@ P=$1; k=$2; src=/tmp/seeded-$P/m$k; wt=/tmp/wt-$P; out=/verif/seeded/$P-m$k
 [ -d "$wt" ] || { echo "no worktree $wt"; exit 2; }
 cd $wt && git checkout -q -- . && git clean -fdq
 place=$(grep -m1 -o '<repo>/[^ ]*_test.go' $src/demo_test.go | sed 's|<repo>/||')
+if [ -z "$place" ]; then
+  d=$(grep -m1 -o '<repo>/[a-z/]*/' $src/demo_test.go | sed 's|<repo>/||')
+  [ -n "$d" ] && place="${d}seeded_${P}_m${k}_demo_test.go"
+fi
 [ -n "$place" ] || { echo "cannot find placement in demo header"; exit 2; }
 log=""
 run() { local r; "$@" >/tmp/confirm.out 2>&1; r=$?; log="$log\n\$ $* -> exit $r"; return $r; }
